@@ -416,6 +416,43 @@ def cache_excl(ctx: Ctx) -> RuleResult:
     acc = cond.comparators[0].id
     defs = [n for n in iter_own_nodes(f.node) if isinstance(n, (ast.Assign, ast.AnnAssign)) and dotted(n.targets[0] if isinstance(n, ast.Assign) else n.target) == acc]
     r.require(len(defs) >= 1, f"definition of {acc} not found")
+    # the ids the writer excludes are the ids the user's aliases resolve to - not a set derived from the selected graph
+    for g_ in ctx.funcs():
+        if g_.cls is None or g_.cls.qualname != (f.cls.qualname if f.cls else None) and not (f.cls and ctx.P.is_subclass(g_.cls.qualname, f.cls.qualname)):
+            continue
+        for n in iter_own_nodes(g_.node):
+            if isinstance(n, ast.Assign) and norm_src(n.targets[0]) == "self.cache_deps_of":
+                v_ = n.value
+                resolved = isinstance(v_, ast.Call) and any("cache_deps_of" in norm_src(a_) for a_ in list(v_.args) + [k.value for k in v_.keywords]) \
+                    and (ctx.T.resolve_callee(g_, v_) or "") in ctx.P.funcs
+                r.ob(resolved, {"in": g_.short, "cache_deps_of becomes": norm_src(v_)})
+                if not resolved:
+                    r.violate(f"{g_.short}: the ids kept for the cache writer are not the resolved cache_deps_of aliases ({norm_src(v_)})", g_.loc(n),
+                              "with cache_deps_of=[mid, last] and last downstream of mid, a set derived from the graph (its leaves, its "
+                              "roots) differs from the listed nodes: mid's result is written to the file and mid is not executed on restart",
+                              norm_src(n))
+                    return r
+    # nothing but the cache_deps_of ids is excluded: every other result of the run belongs in the file
+    contrib = [(d, d.value) for d in defs if d.value is not None]
+    for n in iter_own_nodes(f.node):
+        if isinstance(n, ast.AugAssign) and dotted(n.target) == acc:
+            contrib.append((n, n.value))
+        if isinstance(n, ast.Call) and isinstance(n.func, ast.Attribute) and n.func.attr in ("update", "add", "union") and dotted(n.func.value) == acc and n.args:
+            contrib.append((n, n.args[0]))
+    dep_loops = [lp_ for lp_ in iter_own_nodes(f.node) if isinstance(lp_, ast.For) and "cache_deps_of" in norm_src(lp_.iter)]
+    for st_, v_ in contrib:
+        txt = norm_src(v_)
+        empty = txt in ("set()", "frozenset()", "[]", "set([])", "{}") or (isinstance(v_, ast.Call) and dotted(v_.func) in ("set", "frozenset", "list") and not v_.args)
+        in_loop = any(any(x is st_ for x in ast.walk(lp_)) for lp_ in dep_loops)
+        selfref = acc in {x.id for x in ast.walk(v_) if isinstance(x, ast.Name)} and "cache_deps_of" not in txt and not in_loop
+        foreign = not empty and "cache_deps_of" not in txt and not in_loop and not (selfref and isinstance(v_, (ast.BinOp, ast.Call)) and all(
+            acc == x.id for x in ast.walk(v_) if isinstance(x, ast.Name)))
+        if foreign:
+            r.ob(False, {"excluded besides the cache_deps_of ids": txt})
+            r.violate(f"{f.short}: results other than those of the cache_deps_of nodes are left out of the file ({txt})", f.loc(st_),
+                      "every result of the run that is not excluded by cache_deps_of must be written: a result missing from the file "
+                      "(e.g. a setup result already known to the DAG) is computed again by the execution restarted from it", txt)
+            return r
     # form 1: the set of the (already resolved) ids
     direct = [d for d in defs if isinstance(d.value, ast.Call) and dotted(d.value.func) in ("set", "frozenset", "list") and d.value.args
               and norm_src(d.value.args[0]) == "self.cache_deps_of"]
